@@ -65,6 +65,12 @@ chk("C15", "enum",
     "'Equivalent' is IRI.Equals (C14); actors carry a specific actor type.",
     "DESIGN.md §3 C15")
 
+chk("C11", "enum",
+    "bounded-exhaustive enumeration of carrier placements (every path of item positions up to the depth bound) on the implementation; oracle = reflection snapshot with bto/bcc removed exactly along the walked properties + encoding/json reading of the serialisation",
+    "Every path of depth <= 2 (quick) / selected depth 3 (thorough) of item positions on every type with Clean() is populated with carrier objects (bto, bcc, to, cc), Clean() is executed and the value afterwards must equal the snapshot with bto/bcc removed along the walked properties and nothing else; the JSON written afterwards is read with encoding/json at every walked path.",
+    "Reading D6; node types and depth bounded.",
+    "DESIGN.md §3 C11")
+
 manifest = {
     "version": 1,
     "setup_cmd": "./setup.sh",
